@@ -18,7 +18,8 @@ Pool == <<MkDef(1, 10, <<1>>, <<1>>, <<>>, <<(<<1, 11>>), (<<2, 12>>)>>),
           MkDef(6, 20, <<4, 3>>, <<1>>, <<>>, <<(<<3, 63>>)>>),
           MkDef(7, 10, <<>>, <<2>>, <<>>, <<(<<4, 74>>)>>),
           MkDef(8, 10, <<>>, <<4>>, <<>>, <<(<<1, 81>>)>>),
-          MkDef(9, 15, <<6>>, <<>>, <<>>, <<>>)>>      \* 9: fills placeholders from the variables of the pipeline it runs in (it has none of its own)      \* 8: no transformations; its post-processing item prints variable k1 and the state of the pipeline it runs in
+          MkDef(9, 15, <<6>>, <<>>, <<>>, <<>>),
+          MkDef(10, 15, <<7>>, <<>>, <<>>, <<>>)>>     \* 10: the same inside a nested pipeline      \* 9: fills placeholders from the variables of the pipeline it runs in (it has none of its own)      \* 8: no transformations; its post-processing item prints variable k1 and the state of the pipeline it runs in
           \* 7:      \* no transformations, but post-processing and a variable (a second concat finalizer after pipeline 2's would be fed a string)
 NPool == Len(Pool)
 Seqs(n) == {s \in [1..n -> 1..NPool] : \A i, j \in 1..n : i # j => s[i] # s[j]}
@@ -52,7 +53,7 @@ ThirdCases == {[op |-> "reuse_then_third", operands |-> s, tree |-> Leaf(1), ref
 \* a + b is built AND USED for a conversion, then a goes into a + c: that converts like a's parts followed by c's
 \* (a: the pipeline that reads variables while it runs - 8 prints one, 9 fills placeholders; b and c give the variable different values)
 AfterUseCases == {[op |-> "reuse_after_use", operands |-> s, tree |-> Leaf(1), ref |-> SumSeq(<<Pool[s[1]], Pool[s[3]]>>)]
-                     : s \in {t \in Seqs(3) : t[1] \in {8, 9}}}
+                     : s \in {t \in Seqs(3) : t[1] \in {8, 9, 10}}}
 \* the same pipeline named twice: p + p, (p + q) + p, and the same name twice in the resolver's list
 TwiceCases == {[op |-> "sum", operands |-> <<i, i>>, tree |-> Node(Leaf(1), Leaf(2)), ref |-> SumSeq(<<Pool[i], Pool[i]>>)] : i \in (1..NPool) \ {2}}      \* (2 has the finalizer: twice, the second would be fed a string)
               \cup {[op |-> "sum", operands |-> <<i, j, i>>, tree |-> Node(Node(Leaf(1), Leaf(2)), Leaf(3)), ref |-> SumSeq(<<Pool[i], Pool[j], Pool[i]>>)] : i \in {1, 8}, j \in {2, 3}}
